@@ -8,8 +8,9 @@ root = "/verif"
 repo = "/repo"
 props = [c["property_id"] for c in json.load(open(f"{root}/MANIFEST.json"))["checks"]]
 only = sys.argv[1:]  # optional property ids
-per_func = 5
-random.seed(1)
+per_func = int(os.environ.get('MUT_PER_FUNC', '5'))
+random.seed(int(os.environ.get('MUT_SEED', '1')))
+outtsv = os.environ.get('MUT_OUT', f'{root}/selftest/mutsweep.tsv')
 OPS = [(" < ", " <= "), (" <= ", " < "), (" > ", " >= "), (" >= ", " > "), (" == ", " != "), (" != ", " == "),
        (" + ", " - "), (" - ", " + "), (" * ", " + "), (" && ", " || "), (" || ", " && "), ("continue", "break")]
 def funcs_of(pid):
@@ -79,7 +80,7 @@ def run(job):
     return (pid, name, f"{rel}:{ln}", what, v, new.strip()[:90])
 with concurrent.futures.ThreadPoolExecutor(max_workers=3) as ex:
     res = list(ex.map(run, jobs))
-with open(f"{root}/selftest/mutsweep.tsv", "w") as f:
+with open(outtsv, "w") as f:
     for r in res:
         f.write("\t".join(r) + "\n")
 import collections
